@@ -20,7 +20,7 @@ SweepCons == {"if", "dol", "where", "forall"}
 SimCons == ExecCons
 Set123 == {1, 2, 3}
 SubOnly == {"sub"}
-OneUnits == {"prog", "sub", "fun", "mod"}
+OneUnits == {"prog", "sub", "fun", "mod", "bdata"}
 OneCons == {"if", "do", "dol", "selcase", "where"}
 Spec == GSpec
 =============================================================================
